@@ -24,7 +24,7 @@ ASSUMPTIONS = ["maxAttempts is not judged (the generator ignores it and the prop
 REQUIRED_PROBES = ["retry_fired", "deadline_exhausted", "nonretryable_surface", "unnamed_method_called",
                    "async_retry_fired", "explicit_retry", "explicit_timeout", "attempt_deadline_fired",
                    "timeout_without_retry", "retry_without_timeout", "rest_call", "rest_retry_fired", "paged_call",
-                   "later_page_fetch_walked", "lro_call", "sstream_call", "sleep_overshoot_run", "caller_cancelled_mid_call"]
+                   "later_page_fetch_walked", "lro_call", "sstream_call", "sleep_overshoot_run", "caller_cancelled_mid_call", "later_attempt_deadline_shrunk"]
 
 
 def gen_spec(rng):
@@ -438,6 +438,19 @@ def walk_call(ctx, attempts, t0, first_fetch=True):
                 return {"viol": ("first_attempt_deadline", f"attempt 1 carries timeout={to}; expected {T}")}
             if k > 1 and not (0 < to <= T + TOL):
                 return {"viol": ("later_attempt_deadline", f"attempt {k} carries timeout={to}; expected within (0, {T}]")}
+            # the entry's timeout is the CALL's deadline: a later attempt gets what is left of it, not the whole again
+            # (api-core's TimeToDeadlineTimeout, which wrap_method applies to a float default_timeout / timeout=)
+            #   remaining = T - elapsed; api-core hands out the whole T again once less than 1 s is left (its issue #654)
+            elapsed = a["t"] - t0
+            if elapsed < 0.001:
+                elapsed = 0.0
+            left = T - elapsed
+            ok_vals = [left] if left >= 1 + 1e-6 else [T] if left < 1 - 1e-6 else [left, T]
+            if k > 1 and not any(abs(to - v) <= 1e-3 for v in ok_vals):
+                return {"viol": ("later_attempt_deadline", f"attempt {k} carries timeout={to}; {elapsed:.6f}s of the call's {T}s deadline have "
+                                 f"passed, so {left:.6f}s are left (api-core: the whole {T}s again only when less than 1 s is left)")}
+            if k > 1 and elapsed > 1e-3 and left >= 1 + 1e-6:
+                _bump(probes, "later_attempt_deadline_shrunk")
         o = ctx["servers"].get(a["n"]) or {}
         lat = o.get("lat", 0.0)
         if to is not None and lat > to and a.get("tr") != "rest":   # (the HTTP adapter does not model read timeouts)
